@@ -4,7 +4,7 @@
 # passes with the mutation, demo fails with the mutation, demo passes without it.
 set -u
 export GOFLAGS=-mod=mod GOPROXY=off GOSUMDB=off GOTOOLCHAIN=local; unset GOWORK
-P=$1; M=$2; TAG=${3:-$M}; SRC=/tmp/seedout/$P/$M; WT=/tmp/seedverify-$P-$M
+P=$1; M=$2; TAG=${3:-$M}; SRC=${SEED_SRC:-/tmp/seedout}/$P/$M; WT=/tmp/seedverify-$P-$M
 [ -f $SRC/patch.diff ] || { echo "no patch in $SRC"; exit 2; }
 git -C /repo worktree add -q --detach $WT HEAD || exit 2
 trap 'git -C /repo worktree remove --force $WT >/dev/null 2>&1' EXIT
